@@ -1384,7 +1384,8 @@ func main() {
 			mem += "]\n"
 			defs, extra := primDefs(*root)
 			mem += "\n/-- every primitive of codec/binary_codec.go, its whole body matched against the template of its kind (order = CodecProg.primNames)" +
-				"; other functions in the package: " + strings.Join(extra, ", ") + " -/\ndef prims : List FinProto.PrimDef := [\n  " + strings.Join(defs, ",\n  ") + "]\n"
+				"; other functions in the package: " + strings.Join(extra, ", ") + " -/\ndef prims : List FinProto.PrimDef := [\n  " + strings.Join(defs, ",\n  ") + "]\n" +
+				"\n/-- the Calc bodies of the CRC16 / CRC32 / SSE_BIN / SZSE_BIN services, template-translated -/\ndef cksDefs : List FinProto.CksDef := [" + strings.Join(cksDefs(*root), ", ") + "]\n"
 			src := "-- generated by xlate from codec/checksum.go and codec/binary_codec.go; do not edit\nimport FinProto.LockProg\nimport FinProto.Alias\nimport FinProto.CodecProg\nnamespace FinProto.Gen\nopen FinProto.Reg\n\n" +
 				"/-- the bodies of Registry / Get / Remove / Clear as lock programs -/\ndef lockProgs : Progs :=\n  { reg := " + prog("Registry") + ",\n    get := " + prog("Get") +
 				",\n    remove := " + prog("Remove") + ",\n    clear := " + prog("Clear") + " }\n" + mem + "\nend FinProto.Gen\n"
